@@ -1248,6 +1248,11 @@ class Interp:
                 return self.call_function(c.methods[name], [obj], {}, node)
             if name in c.methods:
                 return BoundMethod(c.methods[name], obj)
+            m, owner = c.lookup(name) if c is not None else (None, None)
+            if m is not None:
+                if name in owner.properties:
+                    return self.call_function(m, [obj], {}, node)
+                return BoundMethod(m, obj)
             if name == "__class__":
                 return c
             self.raise_("AttributeError", node, implicit="attr")
@@ -1438,8 +1443,9 @@ class Interp:
         if r is not NotImplemented:
             return r
         obj = SymObj(cls)
-        if "__init__" in cls.methods:
-            self.call_function(cls.methods["__init__"], [obj] + list(args), kwargs, node, star)
+        init, _owner = cls.lookup("__init__")
+        if init is not None:
+            self.call_function(init, [obj] + list(args), kwargs, node, star)
         elif cls.is_dataclass:
             names = list(cls.fields)
             if len(args) > len(names):
@@ -1681,8 +1687,8 @@ def _only_logging(stmts):
         if isinstance(x, ast.Expr) and isinstance(x.value, ast.Constant):
             continue
         if isinstance(x, ast.Expr) and isinstance(x.value, ast.Call) and isinstance(x.value.func, ast.Attribute) \
-                and isinstance(x.value.func.value, ast.Name) and x.value.func.value.id in ("logger", "warnings") \
-                and x.value.func.attr in ("warning", "info", "debug", "error", "warn", "exception"):
+                and isinstance(x.value.func.value, ast.Name) and x.value.func.value.id == "logger" \
+                and x.value.func.attr in ("warning", "info", "debug", "error", "exception"):
             continue
         return False
     return True
